@@ -1,6 +1,7 @@
 """Extraction items for translate.py: each function takes the repo path and returns Lean lines.
 Pure `ast` walking of the repository's current source text; nothing from the repository is executed."""
 import ast
+import astnorm
 import os
 
 
@@ -99,11 +100,11 @@ _C08_METHS = [("eq", "__eq__"), ("ne", "__ne__"), ("lt", "__lt__"), ("le", "__le
 _C08_OPS = {ast.Lt: "lt", ast.LtE: "le", ast.Gt: "gt", ast.GtE: "ge", ast.Eq: "eq"}
 
 
-def _c08_classdef(repo, cls, rel):
+def _c08_classdef(repo, cls, rel, with_tree=False):
     tree = ast.parse(open(os.path.join(repo, rel)).read())
     for node in tree.body:
         if isinstance(node, ast.ClassDef) and node.name == cls:
-            return node
+            return (node, tree) if with_tree else node
     raise LookupError("class %s not found in %s" % (cls, rel))
 
 
@@ -157,6 +158,16 @@ def _c08_classify(expr):
 
 def _c08_dunder(fn):
     body = _c08_body(fn)
+    # E: length first -  if len(self) != len(other): return len(self) < len(other) ; return tuple.__op__(self, tuple(other))
+    if len(body) == 2 and isinstance(body[0], ast.If) and not body[0].orelse and len(body[0].body) == 1 \
+            and isinstance(body[0].body[0], ast.Return) and isinstance(body[1], ast.Return) \
+            and ast.unparse(body[0].test) in ("len(self) != len(other)", "len(other) != len(self)"):
+        first, last = ast.unparse(body[0].body[0].value), ast.unparse(body[1].value)
+        for op, sym in (("lt", "<"), ("le", "<="), ("gt", ">"), ("ge", ">=")):
+            strict = {"lt": "<", "le": "<", "gt": ">", "ge": ">"}[op]
+            if first == "len(self) %s len(other)" % strict and last in (
+                    "tuple.__%s__(self, tuple(other))" % op, "tuple(self) %s tuple(other)" % sym):
+                return ".noGuard", ".retNotImplemented", "(.lenTuple .%s)" % op
     # A: if not isinstance(other, X): return NotImplemented ; return expr
     if len(body) == 2 and isinstance(body[0], ast.If) and isinstance(body[0].test, ast.UnaryOp) \
             and isinstance(body[0].test.op, ast.Not) and not body[0].orelse and len(body[0].body) == 1 \
@@ -227,7 +238,7 @@ def c08_dunders(repo):
            "deriving DecidableEq, Repr", ""]
     parents, tuples, dund, hashes = [], [], [], []
     for cls, rel in _C08_CLASSES:
-        node = _c08_classdef(repo, cls, rel)
+        node, tree = _c08_classdef(repo, cls, rel, with_tree=True)
         par, is_tuple = "none", "false"
         for b in node.bases:
             bs = ast.unparse(b)
@@ -237,13 +248,16 @@ def c08_dunders(repo):
                 is_tuple = "true"
         parents.append("  | .%s => %s" % (cls, par))
         tuples.append("  | .%s => %s" % (cls, is_tuple))
-        meths = {f.name: f for f in node.body if isinstance(f, ast.FunctionDef)}
+        # harmless rewrites (pure single-return helpers, leading local bindings) are normalised away first
+        meths = {f.name: astnorm.normalise(f, tree, node) for f in node.body
+                 if isinstance(f, ast.FunctionDef) and f.name in [d for _, d in _C08_METHS] + ["__hash__"]}
+        linenos = {f.name: f.lineno for f in node.body if isinstance(f, ast.FunctionDef)}
         for m, d in _C08_METHS:
             if d in meths:
                 g, f, b = _c08_dunder(meths[d])
-                dund.append("  | .%s, .%s => some ⟨%s, %s, %s⟩  -- %s:%d" % (cls, m, g, f, b, rel, meths[d].lineno))
+                dund.append("  | .%s, .%s => some ⟨%s, %s, %s⟩  -- %s:%d" % (cls, m, g, f, b, rel, linenos[d]))
         if "__hash__" in meths:
-            hashes.append("  | .%s => %s  -- %s:%d" % (cls, _c08_hash(meths["__hash__"]), rel, meths["__hash__"].lineno))
+            hashes.append("  | .%s => %s  -- %s:%d" % (cls, _c08_hash(meths["__hash__"]), rel, linenos["__hash__"]))
         else:
             hashes.append("  | .%s => .notDefined" % cls)
     out += ["/-- first base class among the modelled classes -/", "def dParent : DCls → Option DCls"] + parents + [""]
